@@ -130,4 +130,14 @@ theorem monotone_track (cfg : Cfg) (ops : List WriteOp) (t : Nat) (h : Monotone 
   simp only [List.all_eq_true, List.mem_range] at h
   exact h t ht
 
+theorem dropWhile_head {α} (p : α → Bool) : ∀ (l : List α) (u : α) (us : List α), l.dropWhile p = u :: us → p u = false
+  | [], _, _, h => by cases h
+  | a :: l, u, us, h => by
+    by_cases hp : p a = true
+    · rw [List.dropWhile_cons, if_pos hp] at h
+      exact dropWhile_head p l u us h
+    · rw [List.dropWhile_cons, if_neg hp] at h
+      simp only [List.cons.injEq] at h
+      rw [← h.1]; simpa using hp
+
 end Hls.Muxer.Accept
